@@ -164,8 +164,12 @@ def runPutWorld (j : Json) : Except String Json := do
     ("outcomes", Json.arr (r.outcomes.map fun (a, o) => Json.mkObj [("arg", Json.str (Bytes.toHex a)), ("outcome", outcomeJson o)]).toArray)])
 
 def readCfgOf (j : Json) : Except String ReadCfg := do
+  -- the mount table as the listing spells it ("mountTable": e.g. with a trailing slash, as "/" always has), else the
+  -- canonical mount points
+  let table ← hexList j "mountTable"
+  let canon ← hexList j "mounts"
   pure { cwd := cpathOf (← hexField j "cwd"), env := ← envOf j, uid := (j.getObjValAs? Nat "uid").toOption.getD 0,
-         mountPoints := ← hexList j "mounts" }
+         mountPoints := if table.isEmpty then canon else table }
 
 def faultsOf (j : Json) : Except String (List Fault) :=
   match j.getObjVal? "faults" with
